@@ -487,10 +487,25 @@ func (p *Program) InlineHelpers(subject *FuncInfo, exclude ...string) func(call 
 	for _, e := range exclude {
 		ex[e] = true
 	}
+	// the subject's receiver variable: a promoted method of an embedded part (e.flushToX on *encodeBuffer)
+	// called on it is as much a phase of the subject as a method of the same type
+	var recvVar types.Object
+	if root.Decl != nil && root.Decl.Recv != nil && len(root.Decl.Recv.List) == 1 && len(root.Decl.Recv.List[0].Names) == 1 {
+		recvVar = subject.Info().Defs[root.Decl.Recv.List[0].Names[0]]
+	}
 	return func(call *ast.CallExpr) *FuncInfo {
 		cf := Callee(subject.Info(), call)
-		if cf == nil || want == "" || ast.IsExported(cf.Name()) || ex[cf.Name()] || recvName(cf) != want {
+		if cf == nil || want == "" || ast.IsExported(cf.Name()) || ex[cf.Name()] {
 			return nil
+		}
+		if recvName(cf) != want {
+			onRecv := false
+			if sel, ok := ast.Unparen(call.Fun).(*ast.SelectorExpr); ok && recvVar != nil && IdentObj(subject.Info(), sel.X) == recvVar && recvName(cf) != "" {
+				onRecv = true
+			}
+			if !onRecv {
+				return nil
+			}
 		}
 		g := p.FuncOf(cf)
 		if g == nil || g.Decl == nil || g.Body() == nil || g.File != root.File {
